@@ -584,12 +584,12 @@ def python_level_faults(chk):
 
 # ---------------------------------------------------------------------------- load side
 
-OUTCOMES = ["NotAFile", "DOSError", "DEOFError", "DZlibError", "DValueError", "DOk"]
+OUTCOMES = ["NotAFile", "DOSError", "DEOFError", "DZlibError", "DValueError", "DOk", "DTypeError"]
 
 
 def oracle(path):
     """Independent decoding oracle, stage by stage: (outcome class, state, gunzip stage, validate stage).
-    gunzip stage: 0 OSError, 1 EOFError, 2 zlib.error, 3 ok; validate stage: 0 ValueError, 1 ok, -1 not reached."""
+    gunzip stage: 0 OSError, 1 EOFError, 2 zlib.error, 3 ok; validate stage: 0 ValueError, 1 ok, 2 TypeError, -1 not reached."""
     from mopidy.internal.models import StoredState
 
     if not path.is_file():
@@ -609,8 +609,103 @@ def oracle(path):
         return "DOk", StoredState.model_validate_json(raw), 3, 1
     except ValueError:
         return "DValueError", None, 3, 0
+    except TypeError:
+        return "DTypeError", None, 3, 2     # a model's custom __init__ met a missing key
     except Exception as e:  # noqa: BLE001
         return f"Other:validate:{type(e).__name__}", None, 3, -1
+
+
+UUID1 = "0383dadf-2a4e-4d10-a46a-e9e041da8eb3"
+
+
+def rich_state_json():
+    """A well-formed state file (as a JSON value) that uses EVERY field of every model that
+    can occur in it."""
+    artist = {"__model__": "Artist", "uri": "dummy:artist:1", "name": "An Artist", "sortname": "Artist, An",
+              "musicbrainz_id": UUID1}
+    album = {"__model__": "Album", "uri": "dummy:album:1", "name": "An Album", "artists": [artist], "num_tracks": 12,
+             "num_discs": 2, "date": "2004-07-01", "musicbrainz_id": UUID1}
+    track = {"__model__": "Track", "uri": "dummy:track:1", "name": "A Track", "artists": [artist], "album": album,
+             "composers": [artist], "performers": [artist], "genre": "Rock", "track_no": 3, "disc_no": 1,
+             "date": "2004", "length": 180000, "bitrate": 320, "comment": "a comment", "musicbrainz_id": UUID1,
+             "last_modified": 1700000000}
+    return {
+        "__model__": "StoredState", "version": "verif",
+        "state": {
+            "__model__": "CoreState",
+            "history": {"__model__": "HistoryState", "history": [
+                {"__model__": "HistoryTrack", "timestamp": 1700000000000,
+                 "track": {"__model__": "Ref", "uri": "dummy:track:1", "name": "A Track", "type": "track"}}]},
+            "mixer": {"__model__": "MixerState", "volume": 40, "mute": False},
+            "playback": {"__model__": "PlaybackState", "tlid": 1, "time_position": 5000, "state": "paused"},
+            "tracklist": {"__model__": "TracklistState", "repeat": True, "consume": False, "random": False, "single": True,
+                          "next_tlid": 3, "tl_tracks": [{"__model__": "TlTrack", "tlid": 1, "track": track},
+                                                        {"__model__": "TlTrack", "tlid": 2, "track": {"__model__": "Track", "uri": "dummy:track:2"}}]},
+        },
+    }
+
+
+# one value (at least) of every JSON type, plus numbers that parse but cannot be applied
+REPLACEMENTS = [7, -1, 0, 250, 10 ** 15, 1.5, True, False, None, "str", "", "2004-07-01T00:00:00Z", "playing",
+                [], [1], ["x"], {}, {"a": 1}]
+
+
+def json_paths(v, prefix=()):
+    yield prefix
+    if isinstance(v, dict):
+        for k in v:
+            yield from json_paths(v[k], prefix + (k,))
+    elif isinstance(v, list):
+        for i, x in enumerate(v):
+            yield from json_paths(x, prefix + (i,))
+
+
+def json_set(v, path, new, delete=False):
+    import copy
+    v = copy.deepcopy(v)
+    if not path:
+        return new
+    cur = v
+    for k in path[:-1]:
+        cur = cur[k]
+    if delete:
+        del cur[path[-1]]
+    else:
+        cur[path[-1]] = new
+    return v
+
+
+def illtyped_states(chk):
+    """Files that are valid gzip and valid JSON with the right structure, in which ONE node (every
+    leaf and every inner object/list of a state using every model field) is replaced by a value
+    of every JSON type, removed, or accompanied by an unknown key."""
+    base = rich_state_json()
+    yield "welltyped:rich", "regular", gzip.compress(json.dumps(base).encode(), mtime=0)
+    paths = [p for p in json_paths(base) if p]
+    quick = chk.tier == "quick"
+    for p in paths:
+        old = base
+        for k in p:
+            old = old[k]
+        reps = [r for r in REPLACEMENTS if r != old or type(r) is not type(old)]
+        if quick and len(p) > 6:
+            reps = reps[:: 2] + [reps[-1]]
+        label = "/".join(str(k) for k in p)
+        for r in reps:
+            yield f"illtyped:{label}={json.dumps(r)[:24]}", "regular", gzip.compress(json.dumps(json_set(base, p, r)).encode(), mtime=0)
+        if not isinstance(p[-1], int):
+            yield f"illtyped:{label}:removed", "regular", gzip.compress(json.dumps(json_set(base, p, None, delete=True)).encode(), mtime=0)
+    for p in [q for q in json_paths(base) if isinstance(_get(base, q), dict)]:
+        d = dict(_get(base, p))
+        d["unknown_key"] = 1
+        yield "illtyped:" + "/".join(map(str, p)) + ":extra-key", "regular", gzip.compress(
+            json.dumps(json_set(base, p, d) if p else d).encode(), mtime=0)
+
+
+def _get(v, path):
+    for k in path:
+        v = v[k]
+    return v
 
 
 def load_contents(chk):
@@ -652,6 +747,7 @@ def load_contents(chk):
     }
     for k, v in specials.items():
         yield "special:" + k, "regular", v
+    yield from illtyped_states(chk)
     for vi, data in enumerate(valid):
         yield f"valid:{vi}", "regular", data
         small = len(data) <= 700
@@ -715,12 +811,12 @@ def load_stage(chk):
                     "hex": content.hex() if content is not None and len(content) <= 400 else None}
             if len(chk.samples) < 6 and out not in ("DOk",) and i % 97 == 3:
                 chk.sample({k: case[k] for k in ("content", "size", "outcome")} | {"load": obs})
-            if out not in OUTCOMES:
-                chk.corr_failure("load_model", case, f"decoding oracle produced a class outside its outcome set: {out}")
-                continue
             if obs.startswith("raise:"):
                 chk.monitor_failure("load_total", {"call": "storage.load", "exc": obs[6:]},
                                     f"storage.load raised {obs[6:]} for a {cls} file ({out})", case)
+            if out not in OUTCOMES:
+                chk.corr_failure("load_model", case, f"decoding oracle produced a class outside its outcome set: {out}")
+                out = "DValueError"   # go on: Core._setup / _load_state must still cope with this file
             same = (got == state) if out == "DOk" else True
             code = {"none": 0, "some": 1}.get(obs, {"raise:OSError": 2, "raise:EOFError": 3, "raise:error": 4,
                                                    "raise:ValueError": 5, "raise:ValidationError": 5}.get(obs, 9))
@@ -729,8 +825,6 @@ def load_stage(chk):
             # Core._load_state / Core._setup on a subset (and on everything that is not a plain prefix/subst)
             if i % core_every == 0 or cls not in ("prefix", "subst"):
                 for entry in ("_load_state", "_setup"):
-                    if entry == "_load_state" and out == "DOk":
-                        continue  # applying a decoded state is C10's subject
                     place()
                     core = Core(config=cfg, mixer=None, backends=[])
                     try:
@@ -744,27 +838,47 @@ def load_stage(chk):
                     still = os.path.lexists(path)
                     chk.count(1)
                     chk.dist(f"core:{entry}")
-                    if raised is not None:
+                    # a state that parses may still be impossible to APPLY (mixer volume 250, ...): the
+                    # controllers raising in _load_state is C10's subject; _setup must swallow it
+                    unappliable = entry == "_load_state" and out == "DOk" and raised is not None
+                    if unappliable:
+                        chk.dist("core:parseable-but-unappliable")
+                    if raised is not None and not unappliable:
                         chk.monitor_failure("startup_total", {"call": f"Core.{entry}", "exc": raised},
                                             f"Core.{entry} raised {raised} for a {cls} file ({out})", case)
                     if kind == "regular" and still:
-                        chk.monitor_failure("bad_file_removed", {"call": f"Core.{entry}", "outcome": out},
-                                            f"after Core.{entry} the {cls} state file ({out}) is still there", case)
+                        chk.monitor_failure("bad_file_removed", {"call": f"Core.{entry}", "outcome": out,
+                                                                 "unappliable": bool(unappliable or (out == "DOk" and entry == "_setup"))},
+                                            f"after Core.{entry} the {cls} state file ({out}) is still there: the next start "
+                                            "meets the same file again", case)
+                    if entry == "_setup":
+                        # ... and the NEXT start is not affected either
+                        core2 = Core(config=cfg, mixer=None, backends=[])
+                        try:
+                            core2._setup()
+                            raised2 = None
+                        except Exception as e:  # noqa: BLE001
+                            raised2 = type(e).__name__
+                        if raised2 is not None or (kind == "regular" and os.path.lexists(path)):
+                            chk.monitor_failure("next_start_clean", {"call": "Core._setup", "outcome": out},
+                                                f"second start after a {cls} state file ({out}): raised={raised2}, "
+                                                f"file still there={os.path.lexists(path)}", case)
                     if entry == "_load_state":
                         k = {"missing": 0, "directory": 1, "regular": 2}[kind]
-                        core_cases.append(f"({k}, {OUTCOMES.index(out)}, {g_bool(raised is not None)}, {g_bool(still)})")
+                        core_cases.append(f"({k}, {OUTCOMES.index(out)}, {g_bool(raised is not None)}, {g_bool(still)}, "
+                                          f"{g_bool(bool(unappliable))})")
                         core_meta.append({**case, "entry": entry, "raised": raised, "still_there": still})
     finally:
         shutil.rmtree(root, ignore_errors=True)
 
     dec = ("Definition outcome (n : Z) : decode_outcome unit :=\n"
            "  if n =? 0 then NotAFile else if n =? 1 then DOSError else if n =? 2 then DEOFError\n"
-           "  else if n =? 3 then DZlibError else if n =? 4 then DValueError else DOk tt.\n")
+           "  else if n =? 3 then DZlibError else if n =? 4 then DValueError else if n =? 6 then DTypeError else DOk tt.\n")
     ok1 = _eval_mismatches(
         chk, "load_model", cases, meta,
         dec + "Definition gzs (g : Z) : bytes -> gz_outcome := fun b =>\n"
               "  if g =? 0 then GzOSError else if g =? 1 then GzEOF else if g =? 2 then GzZlib else GzOk b.\n"
-              "Definition jss (j : Z) : bytes -> js_outcome unit := fun _ => if j =? 1 then JsOk tt else JsValueError.\n"
+              "Definition jss (j : Z) : bytes -> js_outcome unit := fun _ => if j =? 1 then JsOk tt else if j =? 2 then JsTypeError else JsValueError.\n"
               "Definition agrees (r : res exn (option unit)) (obs : Z) (same : bool) : bool :=\n"
               "  match r with Ok None => obs =? 0 | Ok (Some _) => (obs =? 1) && same | _ => false end.\n"
               "Definition ok (c : Z * Z * bool * Z * Z) : bool :=\n"
@@ -776,12 +890,13 @@ def load_stage(chk):
     ok2 = _eval_mismatches(
         chk, "core_load_model", core_cases, core_meta,
         dec + "Definition kind (n : Z) : fkind := if n =? 0 then FMissing else if n =? 1 then FDirectory else FRegular.\n"
-              "Definition ok (c : Z * Z * bool * bool) : bool :=\n"
-              "  let '(k, o, raised, still) := c in\n"
+              "Definition ok (c : Z * Z * bool * bool * bool) : bool :=\n"
+              "  let '(k, o, raised, still, unappliable) := c in\n"
               "  negb (outcome_fits (kind k) (outcome o)) ||\n"
-              "  match core_load (kind k) true (outcome o) with\n"
-              "  | (Ok _, st) => negb raised && Bool.eqb st still\n  | _ => false end.\n",
-        "Z * Z * bool * bool", shard=500)
+              "  match core_restore (kind k) true unappliable (outcome o) with\n"
+              "  | (Ok _, st) => negb raised && Bool.eqb st still\n"
+              "  | (Raise _, st) => raised && unappliable && Bool.eqb st still\n  | _ => false end.\n",
+        "Z * Z * bool * bool * bool", shard=500)
     chk.obligation("corr:core_load_model", "correspondence", ok2)
 
 
@@ -823,7 +938,7 @@ def run(chk):
     ]
     chk.assumptions = [
         "two crash models: death of the process (page cache survives; real SIGKILLs) and power loss as the journalling abstraction (content durable after fsync of the file, directory operations durable at once; model-side on real traces)",
-        "gzip/zlib/pydantic are oracles with the outcome set NotAFile|OSError|EOFError|zlib.error|ValueError|Ok",
+        "gzip/zlib/pydantic are oracles with the outcome set NotAFile|OSError|EOFError|zlib.error|ValueError|TypeError|Ok",
         "no concurrent writer to the data directory; writes through mmap would be invisible to the trace",
     ]
     chk.search_hook = make_search(chk)
